@@ -93,7 +93,14 @@ func main() {
 		fmt.Fprintln(os.Stderr, "unknown check", check)
 		os.Exit(2)
 	}
+	if pf := os.Getenv("VH_CPUPROFILE"); pf != "" {
+		if f, err := os.Create(pf); err == nil {
+			pprof.StartCPUProfile(f)
+			defer pprof.StopCPUProfile()
+		}
+	}
 	rep := newReport(check, *fSeed)
+	engine.Progress = func() { atomic.AddInt64(&progress, 1) }
 	go watchdog(rep)
 	fn(rep)
 	rep.write(*fOut)
